@@ -3,7 +3,7 @@ import json
 from .core import enc, run_behaviours, ModelError
 from .render import quote_dq
 
-FL = {"MULTI": 1, "TITLE": 8}
+FL = {"MULTI": 1, "TITLE": 8, "NODEFAULT": 16}
 
 
 def b2s(x):
